@@ -360,10 +360,16 @@ pub fn run(ctx: &Ctx) -> Report {
     field::<{ primes::U128_LARGE_2 }>(&mut acc, "U128_LARGE_2", &boundary(primes::U128_LARGE_2), all);
     field::<{ primes::U128_LARGE_3 }>(&mut acc, "U128_LARGE_3", &boundary(primes::U128_LARGE_3), all);
     field::<{ primes::U128_LARGE_4 }>(&mut acc, "U128_LARGE_4", &boundary(primes::U128_LARGE_4), all);
+    // moduli outside the exported list but inside the type's documented domain (P < 2^127):
+    // Mersenne primes on both sides of 2^64 and 2^96
+    field::<{ (1u128 << 61) - 1 }>(&mut acc, "2^61-1", &boundary((1u128 << 61) - 1), all);
+    field::<{ (1u128 << 89) - 1 }>(&mut acc, "2^89-1", &boundary((1u128 << 89) - 1), all);
+    field::<{ (1u128 << 107) - 1 }>(&mut acc, "2^107-1", &boundary((1u128 << 107) - 1), all);
+    field::<{ (1u128 << 127) - 1 }>(&mut acc, "2^127-1", &boundary((1u128 << 127) - 1), all);
     let mut rep = acc.rep;
     rep.traces = rep.transitions;
     rep.distinct_nontrivial = rep.transitions;
-    rep.bound("types", json!(["BooleanSemiring", "RealSemiring", "Complex", "ExpectedUtility", "RationalSemiring", "Polynomial<RealSemiring>", "FiniteField<2,3,5,7,13>", "FiniteField<7 exported primes>"]));
+    rep.bound("types", json!(["BooleanSemiring", "RealSemiring", "Complex", "ExpectedUtility", "RationalSemiring", "Polynomial<RealSemiring>", "FiniteField<2,3,5,7,13>", "FiniteField<7 exported primes>", "FiniteField<2^61-1, 2^89-1, 2^107-1, 2^127-1>"]));
     rep.sample(json!({"type": "FiniteField<U128_LARGE_1>", "law": "mul-is-modular", "a": "P-1", "b": "P-1", "expected": 1}));
     rep.sample(json!({"type": "FiniteField<7>", "law": "sub-inverts-add", "a": 3, "b": 5}));
     rep.assumptions.push("float-backed types are exercised only on values where every intermediate result is exactly representable; equality is the type's own ==".into());
